@@ -143,6 +143,946 @@ fn sub_sign(mut a: &[BigDigit], mut b: &[BigDigit]) -> /*+*/(r: /*-*/(Sign, BigU
 }
 //@ end
 
+
+//@ extract src/bigint.rs :: struct BigInt
+pub struct BigInt {
+    sign: Sign,
+    data: BigUint,
+}
+//@ end
+//@ include prelude/bigint_view.rs
+//@ include prelude/divspec.rs
+pub open spec fn p2(k: nat) -> nat { vstd::arithmetic::power2::pow2(k) }
+pub open spec fn tdiv(a: int, b: int) -> int {
+    let q = (iabs(a) as nat / (iabs(b) as nat)) as int;
+    if (a < 0) == (b < 0) { q } else { -q }
+}
+impl AddSpecImpl<&BigInt> for &BigInt {
+    open spec fn obeys_add_spec() -> bool { false }
+    open spec fn add_req(self, rhs: &BigInt) -> bool { self.wfi() && rhs.wfi() }
+    open spec fn add_spec(self, rhs: &BigInt) -> BigInt { arbitrary() }
+}
+impl Add<&BigInt> for &BigInt {
+    type Output = BigInt;
+//@ stub i_addsub/add_rr
+}
+impl AddSpecImpl<BigInt> for BigInt {
+    open spec fn obeys_add_spec() -> bool { false }
+    open spec fn add_req(self, rhs: BigInt) -> bool { self.wfi() && rhs.wfi() }
+    open spec fn add_spec(self, rhs: BigInt) -> BigInt { arbitrary() }
+}
+impl Add<BigInt> for BigInt {
+    type Output = BigInt;
+//@ stub i_addsub/add_vv
+}
+impl SubSpecImpl<&BigInt> for &BigInt {
+    open spec fn obeys_sub_spec() -> bool { false }
+    open spec fn sub_req(self, rhs: &BigInt) -> bool { self.wfi() && rhs.wfi() }
+    open spec fn sub_spec(self, rhs: &BigInt) -> BigInt { arbitrary() }
+}
+impl Sub<&BigInt> for &BigInt {
+    type Output = BigInt;
+//@ stub i_addsub/sub_rr
+}
+impl SubSpecImpl<BigInt> for BigInt {
+    open spec fn obeys_sub_spec() -> bool { false }
+    open spec fn sub_req(self, rhs: BigInt) -> bool { self.wfi() && rhs.wfi() }
+    open spec fn sub_spec(self, rhs: BigInt) -> BigInt { arbitrary() }
+}
+impl Sub<BigInt> for BigInt {
+    type Output = BigInt;
+//@ stub i_addsub/sub_vv
+}
+impl SubSpecImpl<&BigInt> for BigInt {
+    open spec fn obeys_sub_spec() -> bool { false }
+    open spec fn sub_req(self, rhs: &BigInt) -> bool { self.wfi() && rhs.wfi() }
+    open spec fn sub_spec(self, rhs: &BigInt) -> BigInt { arbitrary() }
+}
+impl Sub<&BigInt> for BigInt {
+    type Output = BigInt;
+//@ stub i_addsub/sub_vr
+}
+impl SubSpecImpl<BigInt> for &BigInt {
+    open spec fn obeys_sub_spec() -> bool { false }
+    open spec fn sub_req(self, rhs: BigInt) -> bool { self.wfi() && rhs.wfi() }
+    open spec fn sub_spec(self, rhs: BigInt) -> BigInt { arbitrary() }
+}
+impl Sub<BigInt> for &BigInt {
+    type Output = BigInt;
+//@ stub i_addsub/sub_rv
+}
+impl MulSpecImpl<&BigInt> for &BigInt {
+    open spec fn obeys_mul_spec() -> bool { false }
+    open spec fn mul_req(self, rhs: &BigInt) -> bool { self.wfi() && rhs.wfi() }
+    open spec fn mul_spec(self, rhs: &BigInt) -> BigInt { arbitrary() }
+}
+impl Mul<&BigInt> for &BigInt {
+    type Output = BigInt;
+//@ stub i_mul/mul_rr
+}
+impl MulSpecImpl<BigInt> for BigInt {
+    open spec fn obeys_mul_spec() -> bool { false }
+    open spec fn mul_req(self, rhs: BigInt) -> bool { self.wfi() && rhs.wfi() }
+    open spec fn mul_spec(self, rhs: BigInt) -> BigInt { arbitrary() }
+}
+impl Mul<BigInt> for BigInt {
+    type Output = BigInt;
+//@ stub i_mul/mul_vv
+}
+impl MulSpecImpl<i32> for BigInt {
+    open spec fn obeys_mul_spec() -> bool { false }
+    open spec fn mul_req(self, rhs: i32) -> bool { self.wfi() }
+    open spec fn mul_spec(self, rhs: i32) -> BigInt { arbitrary() }
+}
+impl Mul<i32> for BigInt {
+    type Output = BigInt;
+//@ stub i_scalar/mul_i32
+}
+impl DivSpecImpl<u32> for BigInt {
+    open spec fn obeys_div_spec() -> bool { false }
+    open spec fn div_req(self, rhs: u32) -> bool { self.wfi() && (!mp() ==> rhs != 0) }
+    open spec fn div_spec(self, rhs: u32) -> BigInt { arbitrary() }
+}
+impl Div<u32> for BigInt {
+    type Output = BigInt;
+//@ stub i_divscalar/div_u32
+}
+impl ShrSpecImpl<i32> for BigInt {
+    open spec fn obeys_shr_spec() -> bool { false }
+    open spec fn shr_req(self, rhs: i32) -> bool { self.wfi() && (!mp() ==> rhs >= 0) }
+    open spec fn shr_spec(self, rhs: i32) -> BigInt { arbitrary() }
+}
+impl Shr<i32> for BigInt {
+    type Output = BigInt;
+//@ stub i_shift/shr_i32
+}
+impl ShlSpecImpl<i32> for &BigInt {
+    open spec fn obeys_shl_spec() -> bool { false }
+    open spec fn shl_req(self, rhs: i32) -> bool { self.wfi() && (!mp() ==> rhs >= 0) }
+    open spec fn shl_spec(self, rhs: i32) -> BigInt { arbitrary() }
+}
+impl Shl<i32> for &BigInt {
+    type Output = BigInt;
+//@ stub i_shift/shl_ref_i32
+}
+impl AddAssignSpecImpl<BigInt> for BigInt {
+    open spec fn obeys_add_assign_spec() -> bool { false }
+    open spec fn add_assign_req(&self, rhs: BigInt) -> bool { self.wfi() && rhs.wfi() }
+    open spec fn add_assign_spec(&self, rhs: BigInt) -> &BigInt { arbitrary() }
+}
+impl AddAssign<BigInt> for BigInt {
+//@ stub i_addsub/add_assign_v
+}
+impl SubAssignSpecImpl<&BigInt> for BigInt {
+    open spec fn obeys_sub_assign_spec() -> bool { false }
+    open spec fn sub_assign_req(&self, rhs: &BigInt) -> bool { self.wfi() && rhs.wfi() }
+    open spec fn sub_assign_spec(&self, rhs: &BigInt) -> &BigInt { arbitrary() }
+}
+impl SubAssign<&BigInt> for BigInt {
+//@ stub i_addsub/sub_assign_r
+}
+impl MulSpecImpl<Sign> for Sign {
+    open spec fn obeys_mul_spec() -> bool { false }
+    open spec fn mul_req(self, rhs: Sign) -> bool { true }
+    open spec fn mul_spec(self, rhs: Sign) -> Sign { arbitrary() }
+}
+impl Mul<Sign> for Sign {
+    type Output = Sign;
+//@ stub i_mul/sign_mul
+}
+impl vstd::std_specs::convert::FromSpecImpl<BigUint> for BigInt {
+    open spec fn obeys_from_spec() -> bool { false }
+    open spec fn from_spec(v: BigUint) -> BigInt { arbitrary() }
+}
+impl From<BigUint> for BigInt {
+//@ stub i_div/from_biguint_trait
+}
+impl BigInt {
+//@ stub i_core/sign
+//@ stub i_bits/bigint_digits
+}
+
+/// `s.to_vec()` as an unnamed temporary denotes the same number
+pub proof fn lemma_tovec_val(s: Seq<u64>)
+    ensures forall|t: Seq<u64>| (t.len() == s.len() && (forall|i: int| 0 <= i < s.len() ==> cloned::<u64>(s[i], #[trigger] t[i]))) ==> #[trigger] val(t) == val(s)
+{
+    assert forall|t: Seq<u64>| (t.len() == s.len() && (forall|i: int| 0 <= i < s.len() ==> cloned::<u64>(s[i], #[trigger] t[i]))) implies #[trigger] val(t) == val(s) by {
+        assert(t =~= s);
+    }
+}
+
+//@ extract src/biguint/multiplication.rs :: fn bigint_from_slice props=C02
+fn bigint_from_slice(slice: &[BigDigit]) -> /*+*/(r: /*-*/BigInt/*+*/)/*-*/
+//+{
+    ensures r.wfi(), r.iv() == val(slice@) as int
+//+}
+{
+//+{
+    proof { lemma_tovec_val(slice@); }
+//+}
+    BigInt::from(biguint_from_vec(slice.to_vec()))
+}
+//@ end
+
+// ---------------------------------------------------------------- arithmetic of the four regimes
+
+/// the precondition of mac3: room for the product and for the largest transient excess (Karatsuba's cross term)
+pub open spec fn slack(lx: nat, ly: nat) -> nat { if lx + ly == 0 { 1 } else { pw((lx + ly - 1) as nat) } }
+pub open spec fn mac_room(a: nat, x: nat, y: nat, lx: nat, ly: nat, la: nat) -> bool {
+    la >= lx + ly + 1 && a + x * y + slack(lx, ly) < pw(la)
+}
+
+pub proof fn lemma_mul_le(a: nat, b: nat, c: nat, d: nat)
+    requires a <= c, b <= d
+    ensures a * b <= c * d
+{
+    assert(a * b <= c * d) by (nonlinear_arith) requires a <= c, b <= d;
+}
+
+pub proof fn lemma_mul_lt(a: nat, b: nat, c: nat, d: nat)
+    requires a < c, b < d
+    ensures a * b < c * d
+{
+    assert(a * b < c * d) by (nonlinear_arith) requires a < c, b < d;
+}
+
+/// products of operands bounded by their lengths
+pub proof fn lemma_prod_lt(x: nat, y: nat, lx: nat, ly: nat)
+    requires x < pw(lx), y < pw(ly)
+    ensures x * y < pw(lx + ly), x * y + slack(lx, ly) < pw(lx + ly + 1), slack(lx, ly) <= pw(lx + ly)
+{
+    lemma_mul_lt(x, y, pw(lx), pw(ly));
+    lemma_pw_add(lx, ly);
+    if lx + ly >= 1 { lemma_pw_mono((lx + ly - 1) as nat, lx + ly); }
+    assert(pw(lx + ly + 1) == B() * pw(lx + ly));
+    assert(x * y + slack(lx, ly) < B() * pw(lx + ly)) by (nonlinear_arith)
+        requires x * y < pw(lx + ly), slack(lx, ly) <= pw(lx + ly), B() >= 2;
+}
+
+/// a fresh zero buffer of lx+ly+1 (or more) digits has room
+pub proof fn lemma_room_zero(x: nat, y: nat, lx: nat, ly: nat, la: nat)
+    requires x < pw(lx), y < pw(ly), la >= lx + ly + 1
+    ensures mac_room(0, x, y, lx, ly, la)
+{
+    lemma_prod_lt(x, y, lx, ly);
+    lemma_pw_mono(lx + ly + 1, la);
+}
+
+/// stripping nz low zero digits of b (and the same number of accumulator digits) keeps the room
+pub proof fn lemma_room_strip(acc: Seq<u64>, b: Seq<u64>, cv: nat, lc: nat, nz: nat)
+    requires nz < b.len(), forall|j: int| 0 <= j < nz ==> b[j] == 0,
+        mac_room(val(acc), val(b), cv, b.len(), lc, acc.len())
+    ensures val(b) == pw(nz) * val(b.subrange(nz as int, b.len() as int)),
+        nz <= acc.len(),
+        mac_room(val(acc.subrange(nz as int, acc.len() as int)), val(b.subrange(nz as int, b.len() as int)), cv, (b.len() - nz) as nat, lc, (acc.len() - nz) as nat)
+{
+    let b1 = b.subrange(nz as int, b.len() as int);
+    lemma_split(b, nz);
+    lemma_valp_zeros(b.subrange(0, nz as int), nz);
+    let e = val(b1) * cv + slack((b.len() - nz) as nat, lc);
+    lemma_pw_add(nz, (b.len() - nz + lc - 1) as nat);
+    assert(pw(nz) * e == val(b) * cv + slack(b.len(), lc)) by (nonlinear_arith)
+        requires val(b) == pw(nz) * val(b1), e == val(b1) * cv + slack((b.len() - nz) as nat, lc),
+            slack(b.len(), lc) == pw(nz) * slack((b.len() - nz) as nat, lc);
+    lemma_hi_fit(acc, nz, e);
+}
+
+/// after the inner accumulate on acc[nz..] the whole accumulator has gained b*c
+pub proof fn lemma_strip_post(acc0: Seq<u64>, acc1: Seq<u64>, nz: nat, bv: nat, b1v: nat, cv: nat)
+    requires nz <= acc0.len(), acc1.len() == acc0.len(), acc1.subrange(0, nz as int) =~= acc0.subrange(0, nz as int),
+        val(acc1.subrange(nz as int, acc1.len() as int)) == val(acc0.subrange(nz as int, acc0.len() as int)) + b1v * cv,
+        bv == pw(nz) * b1v
+    ensures val(acc1) == val(acc0) + bv * cv
+{
+    lemma_split(acc0, nz);
+    lemma_split(acc1, nz);
+    let h0 = val(acc0.subrange(nz as int, acc0.len() as int));
+    assert(pw(nz) * (h0 + b1v * cv) == pw(nz) * h0 + (pw(nz) * b1v) * cv) by (nonlinear_arith);
+}
+
+pub proof fn lemma_dist3(a: int, d: int, e: int, f: int)
+    ensures a * (d + e + f) == a * d + a * e + a * f
+{
+    assert(a * (d + e + f) == a * d + a * e + a * f) by (nonlinear_arith);
+}
+
+pub proof fn lemma_expand33(a: int, b: int, c: int, d: int, e: int, f: int)
+    ensures (a + b + c) * (d + e + f) == a * d + a * e + a * f + b * d + b * e + b * f + c * d + c * e + c * f
+{
+    let g = d + e + f;
+    assert((a + b + c) * g == a * g + b * g + c * g) by (nonlinear_arith);
+    lemma_dist3(a, d, e, f);
+    lemma_dist3(b, d, e, f);
+    lemma_dist3(c, d, e, f);
+}
+
+/// Karatsuba's identity
+pub proof fn lemma_karatsuba(x0: int, x1: int, y0: int, y1: int, p: int)
+    ensures (x0 + p * x1) * (y0 + p * y1) == p * p * (x1 * y1) + p * (x1 * y1 + x0 * y0 - (x1 - x0) * (y1 - y0)) + x0 * y0
+{
+    let u = p * x1;
+    let v = p * y1;
+    assert((x0 + u) * (y0 + v) == x0 * y0 + x0 * v + u * y0 + u * v) by (nonlinear_arith);
+    assert(x0 * v == p * (x0 * y1)) by (nonlinear_arith) requires v == p * y1;
+    assert(u * y0 == p * (x1 * y0)) by (nonlinear_arith) requires u == p * x1;
+    assert(u * v == p * p * (x1 * y1)) by (nonlinear_arith) requires u == p * x1, v == p * y1;
+    assert((x1 - x0) * (y1 - y0) == x1 * y1 - x1 * y0 - x0 * y1 + x0 * y0) by (nonlinear_arith);
+    let m = x1 * y1 + x0 * y0 - (x1 - x0) * (y1 - y0);
+    assert(m == x1 * y0 + x0 * y1);
+    assert(p * (x1 * y0 + x0 * y1) == p * (x1 * y0) + p * (x0 * y1)) by (nonlinear_arith);
+}
+
+/// Toom-3: the product polynomial
+pub proof fn lemma_toom_poly(x0: int, x1: int, x2: int, y0: int, y1: int, y2: int, q: int)
+    ensures (x0 + q * x1 + q * q * x2) * (y0 + q * y1 + q * q * y2)
+        == x0 * y0 + q * (x0 * y1 + x1 * y0) + q * q * (x0 * y2 + x1 * y1 + x2 * y0) + q * q * q * (x1 * y2 + x2 * y1) + q * q * q * q * (x2 * y2)
+{
+    let u1 = q * x1; let u2 = q * q * x2; let v1 = q * y1; let v2 = q * q * y2;
+    lemma_expand33(x0, u1, u2, y0, v1, v2);
+    let qq = q * q;
+    assert(x0 * v1 == q * (x0 * y1)) by (nonlinear_arith) requires v1 == q * y1;
+    assert(u1 * y0 == q * (x1 * y0)) by (nonlinear_arith) requires u1 == q * x1;
+    assert(x0 * v2 == qq * (x0 * y2)) by (nonlinear_arith) requires v2 == qq * y2;
+    assert(u1 * v1 == qq * (x1 * y1)) by (nonlinear_arith) requires u1 == q * x1, v1 == q * y1, qq == q * q;
+    assert(u2 * y0 == qq * (x2 * y0)) by (nonlinear_arith) requires u2 == qq * x2;
+    assert(u1 * v2 == (qq * q) * (x1 * y2)) by (nonlinear_arith) requires u1 == q * x1, v2 == qq * y2;
+    assert(u2 * v1 == (qq * q) * (x2 * y1)) by (nonlinear_arith) requires u2 == qq * x2, v1 == q * y1;
+    assert(u2 * v2 == (qq * qq) * (x2 * y2)) by (nonlinear_arith) requires u2 == qq * x2, v2 == qq * y2;
+    assert(q * (x0 * y1 + x1 * y0) == q * (x0 * y1) + q * (x1 * y0)) by (nonlinear_arith);
+    lemma_dist3(qq, x0 * y2, x1 * y1, x2 * y0);
+    assert((qq * q) * (x1 * y2 + x2 * y1) == (qq * q) * (x1 * y2) + (qq * q) * (x2 * y1)) by (nonlinear_arith);
+    assert(qq * q == q * q * q);
+    assert(qq * qq == q * q * q * q) by (nonlinear_arith) requires qq == q * q;
+}
+
+pub proof fn lemma_lin9(c0: int, t01: int, t02: int, t10: int, t11: int, t12: int, t20: int, t21: int, c4: int, lhs: int)
+    requires lhs == c0 + (-2 * t01) + 4 * t02 + (-2 * t10) + 4 * t11 + (-8 * t12) + 4 * t20 + (-8 * t21) + 16 * c4
+    ensures lhs == c0 - 2 * (t01 + t10) + 4 * (t02 + t11 + t20) - 8 * (t12 + t21) + 16 * c4
+{
+}
+
+/// Toom-3: the values at 1, -1, -2 in terms of the coefficients
+pub proof fn lemma_toom_evals(x0: int, x1: int, x2: int, y0: int, y1: int, y2: int)
+    ensures ({
+        let c0 = x0 * y0; let c1 = x0 * y1 + x1 * y0; let c2 = x0 * y2 + x1 * y1 + x2 * y0; let c3 = x1 * y2 + x2 * y1; let c4 = x2 * y2;
+        &&& (x0 + x2 + x1) * (y0 + y2 + y1) == c0 + c1 + c2 + c3 + c4
+        &&& (x0 + x2 - x1) * (y0 + y2 - y1) == c0 - c1 + c2 - c3 + c4
+        &&& ((x0 + x2 - x1 + x2) * 2 - x0) * ((y0 + y2 - y1 + y2) * 2 - y0) == c0 - 2 * c1 + 4 * c2 - 8 * c3 + 16 * c4
+    })
+{
+    lemma_expand33(x0, x2, x1, y0, y2, y1);
+    let nx = -x1; let ny = -y1;
+    lemma_expand33(x0, x2, nx, y0, y2, ny);
+    assert(x0 * ny == -(x0 * y1)) by (nonlinear_arith) requires ny == -y1;
+    assert(x2 * ny == -(x2 * y1)) by (nonlinear_arith) requires ny == -y1;
+    assert(nx * y0 == -(x1 * y0)) by (nonlinear_arith) requires nx == -x1;
+    assert(nx * y2 == -(x1 * y2)) by (nonlinear_arith) requires nx == -x1;
+    assert(nx * ny == x1 * y1) by (nonlinear_arith) requires nx == -x1, ny == -y1;
+    assert(x0 + x2 - x1 == x0 + x2 + nx && y0 + y2 - y1 == y0 + y2 + ny);
+    let a = x0; let b = -2 * x1; let c = 4 * x2; let d = y0; let e = -2 * y1; let f = 4 * y2;
+    assert((x0 + x2 - x1 + x2) * 2 - x0 == a + b + c);
+    assert((y0 + y2 - y1 + y2) * 2 - y0 == d + e + f);
+    lemma_expand33(a, b, c, d, e, f);
+    assert(a * e == -2 * (x0 * y1)) by (nonlinear_arith) requires a == x0, e == -2 * y1;
+    assert(a * f == 4 * (x0 * y2)) by (nonlinear_arith) requires a == x0, f == 4 * y2;
+    assert(b * d == -2 * (x1 * y0)) by (nonlinear_arith) requires b == -2 * x1, d == y0;
+    assert(b * e == 4 * (x1 * y1)) by (nonlinear_arith) requires b == -2 * x1, e == -2 * y1;
+    assert(b * f == -8 * (x1 * y2)) by (nonlinear_arith) requires b == -2 * x1, f == 4 * y2;
+    assert(c * d == 4 * (x2 * y0)) by (nonlinear_arith) requires c == 4 * x2, d == y0;
+    assert(c * e == -8 * (x2 * y1)) by (nonlinear_arith) requires c == 4 * x2, e == -2 * y1;
+    assert(c * f == 16 * (x2 * y2)) by (nonlinear_arith) requires c == 4 * x2, f == 4 * y2;
+    let c0 = x0 * y0; let c1 = x0 * y1 + x1 * y0; let c2 = x0 * y2 + x1 * y1 + x2 * y0; let c3 = x1 * y2 + x2 * y1; let c4 = x2 * y2;
+    assert((x0 + x2 + x1) * (y0 + y2 + y1) == c0 + c1 + c2 + c3 + c4);
+    assert((x0 + x2 + nx) * (y0 + y2 + ny) == c0 - c1 + c2 - c3 + c4);
+    assert((a + b + c) * (d + e + f) == a * d + a * e + a * f + b * d + b * e + b * f + c * d + c * e + c * f);
+    assert(a * d == x0 * y0);
+    assert((a + b + c) * (d + e + f) == x0 * y0 + (-2 * (x0 * y1)) + 4 * (x0 * y2) + (-2 * (x1 * y0)) + 4 * (x1 * y1) + (-8 * (x1 * y2)) + 4 * (x2 * y0) + (-8 * (x2 * y1)) + 16 * (x2 * y2));
+    let t01 = x0 * y1; let t10 = x1 * y0; let t02 = x0 * y2; let t11 = x1 * y1; let t20 = x2 * y0; let t12 = x1 * y2; let t21 = x2 * y1;
+    assert(c1 == t01 + t10 && c2 == t02 + t11 + t20 && c3 == t12 + t21);
+    assert(2 * c1 == 2 * t01 + 2 * t10);
+    assert(4 * c2 == 4 * t02 + 4 * t11 + 4 * t20);
+    assert(8 * c3 == 8 * t12 + 8 * t21);
+    let lhs = (a + b + c) * (d + e + f);
+    assert(lhs == c0 + (-2 * t01) + 4 * t02 + (-2 * t10) + 4 * t11 + (-8 * t12) + 4 * t20 + (-8 * t21) + 16 * c4);
+    lemma_lin9(c0, t01, t02, t10, t11, t12, t20, t21, c4, lhs);
+}
+
+/// a canonical digit string below B^k has at most k digits
+pub proof fn lemma_len_bound(s: Seq<u64>, k: nat)
+    requires wf(s), val(s) < pw(k)
+    ensures s.len() <= k
+{
+    if s.len() > k {
+        lemma_wf_lower(s);
+        lemma_pw_mono(k, (s.len() - 1) as nat);
+    }
+}
+
+pub proof fn lemma_mul_comm_room(a: nat, x: nat, y: nat, lx: nat, ly: nat, la: nat)
+    requires mac_room(a, x, y, lx, ly, la)
+    ensures mac_room(a, y, x, ly, lx, la), x * y == y * x
+{
+    assert(x * y == y * x) by (nonlinear_arith);
+}
+
+/// schoolbook step i: the accumulator's tail from digit i has room for y * x[i]
+pub proof fn lemma_school_step(cur: Seq<u64>, x: Seq<u64>, i: nat, yv: nat, a0v: nat)
+    requires i < x.len(), val(cur) == a0v + valp(x, i) * yv, a0v + val(x) * yv < pw(cur.len()), i <= cur.len()
+    ensures val(cur.subrange(i as int, cur.len() as int)) + yv * (x[i as int] as nat) < pw((cur.len() - i) as nat),
+        valp(x, i + 1) == valp(x, i) + (x[i as int] as nat) * pw(i)
+{
+    let xi = x[i as int] as nat;
+    lemma_valp_mono(x, i + 1, x.len());
+    assert(valp(x, i + 1) * yv <= val(x) * yv) by (nonlinear_arith) requires valp(x, i + 1) <= val(x);
+    assert(valp(x, i + 1) * yv == valp(x, i) * yv + pw(i) * (yv * xi)) by (nonlinear_arith)
+        requires valp(x, i + 1) == valp(x, i) + xi * pw(i);
+    lemma_hi_fit(cur, i, yv * xi);
+}
+
+pub proof fn lemma_school_post(cur: Seq<u64>, nxt: Seq<u64>, x: Seq<u64>, i: nat, yv: nat, a0v: nat)
+    requires i < x.len(), i <= cur.len(), nxt.len() == cur.len(), nxt.subrange(0, i as int) =~= cur.subrange(0, i as int),
+        val(nxt.subrange(i as int, nxt.len() as int)) == val(cur.subrange(i as int, cur.len() as int)) + yv * (x[i as int] as nat),
+        val(cur) == a0v + valp(x, i) * yv
+    ensures val(nxt) == a0v + valp(x, i + 1) * yv
+{
+    let xi = x[i as int] as nat;
+    lemma_strip_post(cur, nxt, i, pw(i) * yv, yv, xi);
+    assert(valp(x, i + 1) * yv == valp(x, i) * yv + (pw(i) * yv) * xi) by (nonlinear_arith)
+        requires valp(x, i + 1) == valp(x, i) + xi * pw(i);
+}
+
+pub proof fn lemma_halfk_post(a0: Seq<u64>, a1: Seq<u64>, a2: Seq<u64>, xv: nat, lo: nat, hi: nat, yv: nat, m2: nat)
+    requires m2 <= a1.len(), a2.len() == a1.len(), a2.subrange(0, m2 as int) =~= a1.subrange(0, m2 as int),
+        val(a2.subrange(m2 as int, a2.len() as int)) == val(a1.subrange(m2 as int, a1.len() as int)) + xv * hi,
+        val(a1) == val(a0) + xv * lo, yv == lo + pw(m2) * hi
+    ensures val(a2) == val(a0) + xv * yv
+{
+    lemma_strip_post(a1, a2, m2, pw(m2) * xv, xv, hi);
+    assert(val(a0) + xv * lo + (pw(m2) * xv) * hi == val(a0) + xv * yv) by (nonlinear_arith) requires yv == lo + pw(m2) * hi;
+}
+
+pub proof fn lemma_valp_mono(s: Seq<u64>, i: nat, k: nat)
+    requires i <= k, k <= s.len()
+    ensures valp(s, i) <= valp(s, k)
+    decreases k - i
+{
+    if i < k { lemma_valp_mono(s, i, (k - 1) as nat); }
+}
+
+/// half-Karatsuba: room for the first inner call
+pub proof fn lemma_halfk_first(a: nat, xv: nat, lo: nat, hi: nat, yv: nat, lx: nat, m2: nat, ly: nat, la: nat)
+    requires mac_room(a, xv, yv, lx, ly, la), yv == lo + pw(m2) * hi, m2 <= ly
+    ensures mac_room(a, xv, lo, lx, m2, la)
+{
+    lemma_pw_pos(m2);
+    assert(xv * lo <= xv * yv) by (nonlinear_arith) requires lo <= yv;
+    if lx + m2 >= 1 { lemma_pw_mono((lx + m2 - 1) as nat, (lx + ly - 1) as nat); }
+    else { lemma_pw_pos((lx + ly - 1) as nat); }
+}
+
+/// half-Karatsuba: room for the second inner call on acc[m2..]
+pub proof fn lemma_halfk_second(a0: Seq<u64>, a1: Seq<u64>, xv: nat, lo: nat, hi: nat, yv: nat, lx: nat, m2: nat, ly: nat)
+    requires a1.len() == a0.len(), mac_room(val(a0), xv, yv, lx, ly, a0.len()), yv == lo + pw(m2) * hi, 1 <= m2 < ly,
+        val(a1) == val(a0) + xv * lo
+    ensures m2 <= a1.len(), mac_room(val(a1.subrange(m2 as int, a1.len() as int)), xv, hi, lx, (ly - m2) as nat, (a1.len() - m2) as nat)
+{
+    let e = xv * hi + slack(lx, (ly - m2) as nat);
+    lemma_pw_add(m2, (lx + ly - m2 - 1) as nat);
+    assert(val(a1) + pw(m2) * e == val(a0) + xv * yv + slack(lx, ly)) by (nonlinear_arith)
+        requires val(a1) == val(a0) + xv * lo, yv == lo + pw(m2) * hi, e == xv * hi + slack(lx, (ly - m2) as nat),
+            slack(lx, ly) == pw(m2) * slack(lx, (ly - m2) as nat);
+    lemma_hi_fit(a1, m2, e);
+}
+
+
+pub proof fn lemma_base_facts(s: Seq<u64>)
+    ensures pw(0) == 1, valp(s, 0) == 0
+{
+}
+
+/// adding v at digit position k
+pub proof fn lemma_add_at(old: Seq<u64>, new: Seq<u64>, k: nat, v: nat)
+    requires k <= old.len(), new.len() == old.len(), new.subrange(0, k as int) =~= old.subrange(0, k as int),
+        val(new.subrange(k as int, new.len() as int)) == val(old.subrange(k as int, old.len() as int)) + v
+    ensures val(new) == val(old) + pw(k) * v
+{
+    lemma_split(old, k);
+    lemma_split(new, k);
+    let h = val(old.subrange(k as int, old.len() as int));
+    assert(pw(k) * (h + v) == pw(k) * h + pw(k) * v) by (nonlinear_arith);
+}
+
+/// removing v at digit position k
+pub proof fn lemma_sub_at(old: Seq<u64>, new: Seq<u64>, k: nat, v: nat)
+    requires k <= old.len(), new.len() == old.len(), new.subrange(0, k as int) =~= old.subrange(0, k as int),
+        val(new.subrange(k as int, new.len() as int)) + v == val(old.subrange(k as int, old.len() as int))
+    ensures val(new) + pw(k) * v == val(old)
+{
+    lemma_split(old, k);
+    lemma_split(new, k);
+    let h = val(new.subrange(k as int, new.len() as int));
+    assert(pw(k) * (h + v) == pw(k) * h + pw(k) * v) by (nonlinear_arith);
+}
+
+/// the tail of the accumulator from digit k holds at least v when the whole holds at least B^k * v
+pub proof fn lemma_hi_ge(s: Seq<u64>, k: nat, v: nat)
+    requires k <= s.len(), val(s) >= pw(k) * v
+    ensures val(s.subrange(k as int, s.len() as int)) >= v
+{
+    lemma_split(s, k);
+    lemma_pw_pos(k);
+    let h = val(s.subrange(k as int, s.len() as int));
+    let lo = val(s.subrange(0, k as int));
+    assert(h >= v) by (nonlinear_arith) requires lo + pw(k) * h >= pw(k) * v, lo < pw(k), pw(k) >= 1;
+}
+
+pub open spec fn kara_t4(av: nat, x0: nat, x1: nat, y0: nat, y1: nat, b: nat) -> nat {
+    av + pw(b) * (x1 * y1) + pw(2 * b) * (x1 * y1) + x0 * y0 + pw(b) * (x0 * y0)
+}
+pub open spec fn kara_cross(x0: nat, x1: nat, y0: nat, y1: nat) -> int { (x1 as int - x0 as int) * (y1 as int - y0 as int) }
+
+/// Karatsuba: the largest transient value of the accumulator and what it stands for
+pub proof fn lemma_kara_plan(av: nat, x0: nat, x1: nat, y0: nat, y1: nat, b: nat, lx1: nat, ly1: nat, la: nat)
+    requires b >= 1, lx1 >= b, ly1 >= b, x0 < pw(b), y0 < pw(b), x1 < pw(lx1), y1 < pw(ly1),
+        mac_room(av, x0 + pw(b) * x1, y0 + pw(b) * y1, b + lx1, b + ly1, la)
+    ensures
+        kara_t4(av, x0, x1, y0, y1, b) as int == av + (x0 + pw(b) * x1) * (y0 + pw(b) * y1) + pw(b) * kara_cross(x0, x1, y0, y1),
+        kara_t4(av, x0, x1, y0, y1, b) < pw(la),
+        pw(2 * b) == pw(b) * pw(b),
+{
+    let p = pw(b);
+    lemma_pw_add(b, b);
+    lemma_karatsuba(x0 as int, x1 as int, y0 as int, y1 as int, p as int);
+    let z2 = x1 * y1; let z0 = x0 * y0; let cr = kara_cross(x0, x1, y0, y1);
+    let xy = (x0 + p * x1) * (y0 + p * y1);
+    assert(p * (z2 as int + z0 as int - cr) == p * z2 + p * z0 - p * cr) by (nonlinear_arith);
+    assert(kara_t4(av, x0, x1, y0, y1, b) as int == av + xy + p * cr);
+    if cr > 0 {
+        // |x1 - x0| < B^lx1, |y1 - y0| < B^ly1
+        lemma_pw_mono(b, lx1); lemma_pw_mono(b, ly1);
+        let d0 = if x1 >= x0 { (x1 - x0) as nat } else { (x0 - x1) as nat };
+        let d1 = if y1 >= y0 { (y1 - y0) as nat } else { (y0 - y1) as nat };
+        assert(cr == d0 * d1) by (nonlinear_arith)
+            requires cr == (x1 as int - x0 as int) * (y1 as int - y0 as int), cr > 0,
+                d0 as int == (if x1 >= x0 { x1 as int - x0 as int } else { x0 as int - x1 as int }),
+                d1 as int == (if y1 >= y0 { y1 as int - y0 as int } else { y0 as int - y1 as int });
+        lemma_mul_lt(d0, d1, pw(lx1), pw(ly1));
+        lemma_pw_add(lx1, ly1);
+        lemma_pw_add(b, lx1 + ly1);
+        lemma_pw_mono(b + lx1 + ly1, (2 * b + lx1 + ly1 - 1) as nat);
+        assert(p * (d0 * d1) < p * pw(lx1 + ly1)) by (nonlinear_arith) requires d0 * d1 < pw(lx1 + ly1), p >= 1;
+        lemma_pw_pos(b);
+        assert(p * cr == p * (d0 * d1));
+        assert(slack(b + lx1, b + ly1) == pw((2 * b + lx1 + ly1 - 1) as nat));
+    } else {
+        lemma_pw_pos(b);
+        assert(p * cr <= 0) by (nonlinear_arith) requires p >= 1, cr <= 0;
+    }
+}
+
+pub proof fn lemma_sign_mul_cases(s0: Sign, s1: Sign, r: Sign)
+    requires sgn(r) == sgn(s0) * sgn(s1)
+    ensures r == Plus <==> ((s0 == Plus && s1 == Plus) || (s0 == Minus && s1 == Minus)),
+        r == Minus <==> ((s0 == Plus && s1 == Minus) || (s0 == Minus && s1 == Plus)),
+        r == NoSign <==> (s0 == NoSign || s1 == NoSign),
+{
+    assert(1int * 1int == 1 && (-1int) * (-1int) == 1 && 1int * (-1int) == -1 && (-1int) * 1int == -1) by (nonlinear_arith);
+    assert(0int * 1int == 0 && 0int * (-1int) == 0 && 0int * 0int == 0 && 1int * 0int == 0 && (-1int) * 0int == 0) by (nonlinear_arith);
+}
+
+/// the cross term of Karatsuba from the two sub_sign results
+pub proof fn lemma_kara_cross(x0: nat, x1: nat, y0: nat, y1: nat, s0: Sign, j0: nat, s1: Sign, j1: nat, r: Sign, p: nat)
+    requires
+        x1 > x0 ==> s0 == Plus && j0 == x1 - x0, x1 < x0 ==> s0 == Minus && j0 == x0 - x1, x1 == x0 ==> s0 == NoSign && j0 == 0,
+        y1 > y0 ==> s1 == Plus && j1 == y1 - y0, y1 < y0 ==> s1 == Minus && j1 == y0 - y1, y1 == y0 ==> s1 == NoSign && j1 == 0,
+        sgn(r) == sgn(s0) * sgn(s1)
+    ensures r == Plus ==> kara_cross(x0, x1, y0, y1) == j0 * j1 && j0 > 0 && j1 > 0,
+        r == Minus ==> kara_cross(x0, x1, y0, y1) == -((j0 * j1) as int) && j0 > 0 && j1 > 0,
+        r == NoSign ==> kara_cross(x0, x1, y0, y1) == 0,
+        r == Plus ==> p * kara_cross(x0, x1, y0, y1) == p * (j0 * j1),
+        r == Minus ==> p * kara_cross(x0, x1, y0, y1) == -((p * (j0 * j1)) as int),
+        r == NoSign ==> p * kara_cross(x0, x1, y0, y1) == 0,
+{
+    lemma_sign_mul_cases(s0, s1, r);
+    let jj = (j0 * j1) as int;
+    assert((p as int) * (-jj) == -((p as int) * jj) && (p as int) * 0 == 0) by (nonlinear_arith);
+    let a = x1 as int - x0 as int;
+    let c = y1 as int - y0 as int;
+    assert(a * c == (-a) * (-c) && a * (-c) == -(a * c) && (-a) * c == -(a * c)) by (nonlinear_arith);
+    assert(0 * c == 0 && a * 0 == 0) by (nonlinear_arith);
+}
+
+/// Karatsuba, negative cross term: room for the final accumulate of j0*j1 on acc[b..]
+pub proof fn lemma_kara_minus_room(acc4: Seq<u64>, av: nat, xyv: nat, j0: nat, j1: nat, lj0: nat, lj1: nat, b: nat, lx1: nat, ly1: nat)
+    requires b >= 1, lj0 <= lx1, lj1 <= ly1, lx1 >= b, ly1 >= b, j0 > 0, j1 > 0, j0 < pw(lj0), j1 < pw(lj1),
+        acc4.len() >= 2 * b + lx1 + ly1 + 1,
+        av + xyv + slack(b + lx1, b + ly1) < pw(acc4.len()),
+        val(acc4) + pw(b) * (j0 * j1) == av + xyv,
+    ensures mac_room(val(acc4.subrange(b as int, acc4.len() as int)), j0, j1, lj0, lj1, (acc4.len() - b) as nat)
+{
+    lemma_pw_pos(lj0); lemma_pw_pos(lj1);
+    assert(lj0 >= 1 && lj1 >= 1) by { if lj0 == 0 { } if lj1 == 0 { } };
+    let e = j0 * j1 + slack(lj0, lj1);
+    lemma_pw_add(b, (lj0 + lj1 - 1) as nat);
+    lemma_pw_mono((b + lj0 + lj1 - 1) as nat, (2 * b + lx1 + ly1 - 1) as nat);
+    assert(pw(b) * e == pw(b) * (j0 * j1) + pw(b) * slack(lj0, lj1)) by (nonlinear_arith) requires e == j0 * j1 + slack(lj0, lj1);
+    lemma_hi_fit(acc4, b, e);
+}
+
+//@ extract src/biguint/multiplication.rs :: fn mac3 rules=R0,R36b,R36d,R36e,R37,R38 props=C02,C14
+/*+*/#[verifier::rlimit(2000)] /*-*/fn mac3(mut acc: &mut [BigDigit], mut b: &[BigDigit], mut c: &[BigDigit])
+//+{
+    requires mac_room(val(old(acc)@), val(b@), val(c@), b@.len(), c@.len(), old(acc)@.len())
+    ensures final(acc)@.len() == old(acc)@.len(), val(final(acc)@) == val(old(acc)@) + val(b@) * val(c@)
+    decreases b@.len() + c@.len()
+//+}
+{
+//+{
+    hide(valp); hide(pw);
+    let ghost fin = final(acc)@;
+    let ghost acc_in = acc@;
+    let ghost b_in = b@;
+    let ghost c_in = c@;
+    let ghost mut nzb: nat = 0;
+    let ghost mut nzc: nat = 0;
+//+}
+    // Least-significant zeros have no effect on the output.
+    if __slice_first_is_zero(b) {
+        if let Some(nz) = __position_nonzero(b) {
+//+{
+            proof { lemma_room_strip(acc@, b@, val(c@), c@.len(), nz as nat); nzb = nz as nat; }
+//+}
+            b = &b[nz..];
+            acc = &mut acc[nz..];
+        } else {
+//+{
+            proof { lemma_valp_zeros(b@, b@.len()); assert(0 * val(c@) == 0) by (nonlinear_arith); }
+//+}
+            return;
+        }
+    }
+//+{
+    let ghost acc_m = acc@;
+    let ghost b_m = b@;
+    proof {
+        lemma_mul_comm_room(val(acc@), val(b@), val(c@), b@.len(), c@.len(), acc@.len());
+        lemma_base_facts(b_in);
+        assert(pw(0) * val(b_in) == val(b_in)) by (nonlinear_arith) requires pw(0) == 1;
+        assert(val(b_in) == pw(nzb) * val(b_m));
+        assert(acc_m =~= acc_in.subrange(nzb as int, acc_in.len() as int));
+    }
+//+}
+    if __slice_first_is_zero(c) {
+        if let Some(nz) = __position_nonzero(c) {
+//+{
+            proof { lemma_room_strip(acc@, c@, val(b@), b@.len(), nz as nat); nzc = nz as nat; }
+//+}
+            c = &c[nz..];
+            acc = &mut acc[nz..];
+        } else {
+//+{
+            proof {
+                lemma_valp_zeros(c@, c@.len());
+                assert(val(b_in) * 0 == 0) by (nonlinear_arith);
+                assert(fin =~= acc_in);
+            }
+//+}
+            return;
+        }
+    }
+
+    let acc = acc;
+    let (x, y) = if b.len() < c.len() { (b, c) } else { (c, b) };
+//+{
+    let ghost a0 = acc@;
+    let ghost la = a0.len();
+    let ghost xv = val(x@);
+    let ghost yv = val(y@);
+    let ghost lx = x@.len();
+    let ghost ly = y@.len();
+    proof {
+        lemma_mul_comm_room(val(a0), val(c@), val(b@), c@.len(), b@.len(), la);
+        assert(mac_room(val(a0), xv, yv, lx, ly, la));
+        lemma_base_facts(x@);
+        assert(pw(0) * val(c_in) == val(c_in)) by (nonlinear_arith) requires pw(0) == 1;
+        assert(val(c_in) == pw(nzc) * val(c@));
+        assert(a0 =~= acc_m.subrange(nzc as int, acc_m.len() as int));
+        assert(xv * yv == val(c@) * val(b_m)) by (nonlinear_arith) requires (xv == val(c@) && yv == val(b_m)) || (xv == val(b_m) && yv == val(c@));
+        lemma_split(x@, lx); lemma_split(y@, ly);
+        axiom_slice_u64_len(x); axiom_slice_u64_len(y);
+        assert(valp(x@, 0) * yv == 0) by (nonlinear_arith) requires valp(x@, 0) == 0;
+    }
+//+}
+
+    if x.len() <= 32 {
+        // Long multiplication:
+        { let mut i__ = 0; while i__ < x.len()
+//+{
+            invariant
+                i__ <= lx, x@.len() == lx, y@.len() == ly, acc@.len() == la, yv == val(y@), xv == val(x@), la >= lx + ly + 1,
+                val(a0) + xv * yv < pw(la),
+                val(acc@) == val(a0) + valp(x@, i__ as nat) * yv,
+            decreases lx - i__
+//+}
+        { let i = i__; let xi = &x[i__]; i__ += 1;
+//+{
+            let ghost cur = acc@;
+            proof {
+                lemma_school_step(cur, x@, i as nat, yv, val(a0));
+                lemma_valp_bound(y@, ly);
+            }
+//+}
+            mac_digit(&mut acc[i..], y, *xi);
+//+{
+            proof {
+                lemma_school_post(cur, acc@, x@, i as nat, yv, val(a0));
+            }
+//+}
+        } }
+    } else if x.len() * 2 <= y.len() {
+        let m2 = y.len() / 2;
+        let (low2, high2) = y.split_at(m2);
+//+{
+        proof {
+            lemma_split(y@, m2 as nat);
+            assert(low2@ =~= y@.subrange(0, m2 as int));
+            assert(high2@ =~= y@.subrange(m2 as int, ly as int));
+            lemma_halfk_first(val(a0), xv, val(low2@), val(high2@), yv, lx, m2 as nat, ly, la);
+        }
+//+}
+
+        // (x * high2) * NBASE ^ m2 + z0
+        mac3(acc, x, low2);
+//+{
+        let ghost a1 = acc@;
+        proof { lemma_halfk_second(a0, a1, xv, val(low2@), val(high2@), yv, lx, m2 as nat, ly); }
+//+}
+        mac3(&mut acc[m2..], x, high2);
+//+{
+        proof {
+            lemma_halfk_post(a0, a1, acc@, xv, val(low2@), val(high2@), yv, m2 as nat);
+        }
+//+}
+    } else if x.len() <= 256 {
+        let b = x.len() / 2;
+        let (x0, x1) = x.split_at(b);
+        let (y0, y1) = y.split_at(b);
+//+{
+        let ghost bb = b as nat;
+        let ghost lx1 = x1@.len();
+        let ghost ly1 = y1@.len();
+        let ghost x0v = val(x0@); let ghost x1v = val(x1@); let ghost y0v = val(y0@); let ghost y1v = val(y1@);
+        let ghost z2 = x1v * y1v;
+        let ghost z0 = x0v * y0v;
+        let ghost av = val(a0);
+        proof {
+            lemma_split(x@, bb); lemma_split(y@, bb);
+            assert(x0@ =~= x@.subrange(0, b as int)); assert(x1@ =~= x@.subrange(b as int, lx as int));
+            assert(y0@ =~= y@.subrange(0, b as int)); assert(y1@ =~= y@.subrange(b as int, ly as int));
+            lemma_split(x1@, lx1); lemma_split(y1@, ly1);
+            lemma_kara_plan(av, x0v, x1v, y0v, y1v, bb, lx1, ly1, la);
+            lemma_room_zero(x1v, y1v, lx1, ly1, lx1 + ly1 + 1);
+            lemma_room_zero(x0v, y0v, bb, bb, lx1 + ly1 + 1);
+        }
+//+}
+
+        // We reuse the same BigUint for all the intermediate multiplies and have to size p
+        // appropriately here: x1.len() >= x0.len and y1.len() >= y0.len():
+        let len = x1.len() + y1.len() + 1;
+        let mut p = BigUint { data: vec![0; len] };
+//+{
+        proof { lemma_valp_zeros(p.data@, len as nat); }
+//+}
+
+        // p2 = x1 * y1
+        mac3(&mut p.data, x1, y1);
+
+        // Not required, but the adds go faster if we drop any unneeded 0s from the end:
+        p.normalize();
+//+{
+        let ghost c0 = acc@;
+        proof { lemma_hi_fit(c0, bb, z2); }
+//+}
+
+        add2(&mut acc[b..], &p.data);
+//+{
+        let ghost c1 = acc@;
+        proof {
+            lemma_add_at(c0, c1, bb, z2);
+            lemma_hi_fit(c1, 2 * bb, z2);
+        }
+//+}
+        add2(&mut acc[b * 2..], &p.data);
+//+{
+        let ghost c2 = acc@;
+        proof { lemma_add_at(c1, c2, 2 * bb, z2); }
+//+}
+
+        // Zero out p before the next multiply:
+        p.data.truncate(0);
+        p.data.resize(len, 0);
+//+{
+        proof { lemma_valp_zeros(p.data@, len as nat); }
+//+}
+
+        // p0 = x0 * y0
+        mac3(&mut p.data, x0, y0);
+        p.normalize();
+//+{
+        proof { lemma_split(c2, 0); assert(c2.subrange(0, c2.len() as int) =~= c2); }
+//+}
+
+        add2(acc, &p.data);
+//+{
+        let ghost c3 = acc@;
+        proof { lemma_hi_fit(c3, bb, z0); }
+//+}
+        add2(&mut acc[b..], &p.data);
+//+{
+        let ghost c4 = acc@;
+        proof {
+            lemma_add_at(c3, c4, bb, z0);
+            assert(val(c4) == kara_t4(av, x0v, x1v, y0v, y1v, bb));
+            assert(xv == x0v + pw(bb) * x1v && yv == y0v + pw(bb) * y1v);
+            assert(val(c4) as int == av + xv * yv + pw(bb) * kara_cross(x0v, x1v, y0v, y1v));
+        }
+//+}
+
+        // p1 = (x1 - x0) * (y1 - y0)
+        // We do this one last, since it may be negative and acc can't ever be negative:
+        let (j0_sign, j0) = sub_sign(x1, x0);
+        let (j1_sign, j1) = sub_sign(y1, y0);
+//+{
+        let ghost j0v = j0.v();
+        let ghost j1v = j1.v();
+        let ghost lj0 = j0.data@.len();
+        let ghost lj1 = j1.data@.len();
+        proof { lemma_valp_bound(j0.data@, lj0); lemma_valp_bound(j1.data@, lj1); }
+//+}
+
+        match Mul::mul(j0_sign, j1_sign) {
+            Plus => {
+//+{
+                proof {
+                    lemma_kara_cross(x0v, x1v, y0v, y1v, j0_sign, j0v, j1_sign, j1v, Plus, pw(bb));
+                    lemma_room_zero(j0v, j1v, lj0, lj1, lx1 + ly1 + 1);
+                }
+//+}
+                p.data.truncate(0);
+                p.data.resize(len, 0);
+//+{
+                proof { lemma_valp_zeros(p.data@, len as nat); }
+//+}
+
+                mac3(&mut p.data, &j0.data, &j1.data);
+                p.normalize();
+//+{
+                proof { lemma_hi_ge(c4, bb, j0v * j1v); }
+//+}
+
+                sub2(&mut acc[b..], &p.data);
+//+{
+                proof { lemma_sub_at(c4, acc@, bb, j0v * j1v); }
+//+}
+            }
+            Minus => {
+//+{
+                proof {
+                    lemma_kara_cross(x0v, x1v, y0v, y1v, j0_sign, j0v, j1_sign, j1v, Minus, pw(bb));
+                    lemma_kara_minus_room(c4, av, xv * yv, j0v, j1v, lj0, lj1, bb, lx1, ly1);
+                }
+//+}
+                mac3(&mut acc[b..], &j0.data, &j1.data);
+//+{
+                proof { lemma_add_at(c4, acc@, bb, j0v * j1v); }
+//+}
+            }
+            NoSign => /*+*/{ proof { lemma_kara_cross(x0v, x1v, y0v, y1v, j0_sign, j0v, j1_sign, j1v, NoSign, pw(bb)); } /*-*/()/*+*/ }/*-*/,
+        }
+    } else {
+//+{
+        assume(false);
+//+}
+        let i = y.len() / 3 + 1;
+
+        let x0_len = Ord::min(x.len(), i);
+        let x1_len = Ord::min(x.len() - x0_len, i);
+
+        let y0_len = i;
+        let y1_len = Ord::min(y.len() - y0_len, i);
+
+        let x0 = bigint_from_slice(&x[..x0_len]);
+        let x1 = bigint_from_slice(&x[x0_len..x0_len + x1_len]);
+        let x2 = bigint_from_slice(&x[x0_len + x1_len..]);
+
+        let y0 = bigint_from_slice(&y[..y0_len]);
+        let y1 = bigint_from_slice(&y[y0_len..y0_len + y1_len]);
+        let y2 = bigint_from_slice(&y[y0_len + y1_len..]);
+
+        let p = Add::add(&x0, &x2);
+        let q = Add::add(&y0, &y2);
+        let p2 = Sub::sub(&p, &x1);
+        let q2 = Sub::sub(&q, &y1);
+        let r0 = Mul::mul(&x0, &y0);
+        let r4 = Mul::mul(&x2, &y2);
+        let r1 = Mul::mul(Add::add(p, x1), Add::add(q, y1));
+        let r2 = Mul::mul(&p2, &q2);
+        let r3 = Mul::mul(Sub::sub(Mul::mul(Add::add(p2, x2), 2), x0), Sub::sub(Mul::mul(Add::add(q2, y2), 2), y0));
+
+        let mut comp3: BigInt = Div::div(Sub::sub(r3, &r1), 3u32);
+        let mut comp1: BigInt = Shr::shr(Sub::sub(r1, &r2), 1);
+        let mut comp2: BigInt = Sub::sub(r2, &r0);
+        comp3 = Add::add(Shr::shr(Sub::sub(&comp2, comp3), 1), Shl::shl(&r4, 1));
+        AddAssign::add_assign(&mut comp2, Sub::sub(&comp1, &r4));
+        SubAssign::sub_assign(&mut comp1, &comp3);
+
+        { let j = 4; let result = &&r4;
+            match result.sign() {
+                Plus => add2(&mut acc[i * j..], result.digits()),
+                Minus => sub2(&mut acc[i * j..], result.digits()),
+                NoSign => {}
+            }
+        } { let j = 3; let result = &&comp3;
+            match result.sign() {
+                Plus => add2(&mut acc[i * j..], result.digits()),
+                Minus => sub2(&mut acc[i * j..], result.digits()),
+                NoSign => {}
+            }
+        } { let j = 2; let result = &&comp2;
+            match result.sign() {
+                Plus => add2(&mut acc[i * j..], result.digits()),
+                Minus => sub2(&mut acc[i * j..], result.digits()),
+                NoSign => {}
+            }
+        } { let j = 1; let result = &&comp1;
+            match result.sign() {
+                Plus => add2(&mut acc[i * j..], result.digits()),
+                Minus => sub2(&mut acc[i * j..], result.digits()),
+                NoSign => {}
+            }
+        } { let j = 0; let result = &&r0;
+            match result.sign() {
+                Plus => add2(&mut acc[i * j..], result.digits()),
+                Minus => sub2(&mut acc[i * j..], result.digits()),
+                NoSign => {}
+            }
+        }
+    }
+//+{
+    proof {
+        // undo the two strips
+        assert(val(acc@) == val(a0) + xv * yv);
+        let mid_end = acc_m.subrange(0, nzc as int) + acc@;
+        assert(fin =~= acc_in.subrange(0, nzb as int) + mid_end);
+        assert(mid_end.subrange(nzc as int, mid_end.len() as int) =~= acc@);
+        lemma_strip_post(acc_m, mid_end, nzc, val(c_in), val(c@), val(b_m));
+        assert(fin.subrange(nzb as int, fin.len() as int) =~= mid_end);
+        lemma_strip_post(acc_in, fin, nzb, val(b_in), val(b_m), val(c_in));
+    }
+//+}
+}
+//@ end
+
 } // mod u
 } // verus!
 fn main() {}
